@@ -278,8 +278,22 @@ func computeDevirt(p *Prog) {
 			for _, fn := range p.AllFuncs {
 				for _, b := range fn.Blocks {
 					for _, in := range b.Instrs {
-						if mi, ok := in.(*ssa.MakeInterface); ok && types.Identical(mi.Type(), it.tn.Type()) {
-							seenT[types.TypeString(mi.X.Type(), nil)] = mi.X.Type()
+						switch mi := in.(type) {
+						case *ssa.MakeInterface:
+							if types.Identical(mi.Type(), it.tn.Type()) {
+								seenT[types.TypeString(mi.X.Type(), nil)] = mi.X.Type()
+							}
+						case *ssa.ChangeInterface:
+							// a value of unknown dynamic type converted from another interface
+							if types.Identical(mi.Type(), it.tn.Type()) {
+								seenT["?"+types.TypeString(mi.X.Type(), nil)] = nil
+								seenT["??"] = nil
+							}
+						case *ssa.TypeAssert:
+							if types.Identical(mi.AssertedType, it.tn.Type()) {
+								seenT["?assert"] = nil
+								seenT["??"] = nil
+							}
 						}
 					}
 				}
